@@ -1,4 +1,5 @@
-CONSTANTS MAXLEN = 13  MAXREP = 6  CRLF = FALSE
+\* model check only (see gen/CsvSplit_gen_thorough.cfg)
+CONSTANTS MAXLEN = 11  MAXREP = 6  CRLFLEN = 9
 SPECIFICATION Spec
 INVARIANTS C15_Csv RangeOrdered
 CHECK_DEADLOCK FALSE
